@@ -19,7 +19,8 @@ func quote(s string) string {
 	if s == "" {
 		return ""
 	}
-	return `"` + s + `"`
+	// the compiler reads a double-quoted string as a JSON string
+	return `"` + strings.NewReplacer(`\`, `\\`, `"`, `\"`).Replace(s) + `"`
 }
 
 func isBuiltInType(item Type) bool {
